@@ -143,6 +143,17 @@ def run(tier, seed):
     for ob in obligations:
         if ob.get("verdict") == "violation":
             replay_native(ob)
+    # start-up orchestration (load index -> snapshot -> log suffix -> load complete)
+    from . import c01orch
+    ob = c01orch.run(tier, seed)
+    if ob.get("verdict") == "violation":
+        from lib import native
+        path = native.write_replay("C01", "c01", "model", [], {"engine": "smt", "mode": "model-only", "obligation": ob["harness"], "message": ob["message"], "model": ob.get("counterexample")})
+        ob["replay_path"] = path
+        ob["replay"] = {"path": path, "outcome": "model-only",
+                        "message": "index contents + emission sequence of the start-up chain; a native run needs the seven state-machine actors and three store actors "
+                                   "(findings/S01b_demo.rs shows the shape of such a run)"}
+    obligations.append(ob)
     info["wall_s"] = round(time.time() - t0, 1)
     return {"obligations": obligations, "info": info}
 
